@@ -119,6 +119,7 @@ fn run() -> ExitCode {
     // Analyze functions and templates in user provided input files.
     runner.analyze_functions(&mut stdout_writer, true);
     runner.analyze_templates(&mut stdout_writer, true);
+    runner.analyze_main_component(&mut stdout_writer, true);
 
     // If a Sarif file is passed to the program we write the reports to it.
     if let Some(sarif_file) = options.sarif_file {
